@@ -386,8 +386,8 @@ PROPS = {
                                  'DX.misplaced_iff', 'DX.struct_entries_isolated'])],
         l1=[('cmp1', 'all', 'all'), ('cmp1all', 20000, 'all'), ('cmpWild', 4000, 100000), ('cmpN', 2000, 50000)],
         labels=r':(PartialEq|PartialOrd|Ord|Eq|Hash)$|^err$',
-        kinds=('class', 'count', 'panic', 'nondet', 'parse'),
-        l1_is_concrete=('class',),
+        kinds=('class', 'count', 'panic', 'nondet', 'parse', 'errtrait'),
+        l1_is_concrete=('class', 'errtrait'),
         l1_concrete_text='this attribute combination is accepted / rejected differently from the documented rule (docMisuse, proved equal to the model)',
         explanation='theorems: a trait is refused iff some field is misused for it (M1-M3), misplaced arguments are refused, entries are isolated; L1: accept/reject class of every segment over the exhaustive matrix',
     ),
